@@ -405,25 +405,28 @@ func CellBytes(data []byte, pos int, typ byte, metadata uint16, isUnSignedInt bo
 		return []byte(fmt.Sprintf("%04d-%02d-%02d", year, month, day)), 3, nil
 
 	case TypeTime:
-		var hour, minute, second int32
+		var val int32
 		if data[pos+2]&128 > 0 {
 			// Negative number, have to extend the sign.
-			val := int32(uint32(data[pos]) +
+			val = int32(uint32(data[pos]) +
 				uint32(data[pos+1])<<8 +
 				uint32(data[pos+2])<<16 +
 				uint32(255)<<24)
-			hour = val / 10000
-			minute = -((val % 10000) / 100)
-			second = -(val % 100)
 		} else {
-			val := int32(data[pos]) +
+			val = int32(data[pos]) +
 				int32(data[pos+1])<<8 +
 				int32(data[pos+2])<<16
-			hour = val / 10000
-			minute = (val % 10000) / 100
-			second = val % 100
 		}
-		return []byte(fmt.Sprintf("%02d:%02d:%02d", hour, minute, second)), 3, nil
+		// Print the sign once, then the fields of the magnitude.
+		sign := ""
+		if val < 0 {
+			sign = "-"
+			val = -val
+		}
+		hour := val / 10000
+		minute := (val % 10000) / 100
+		second := val % 100
+		return []byte(fmt.Sprintf("%s%02d:%02d:%02d", sign, hour, minute, second)), 3, nil
 
 	case TypeDateTime:
 		val := binary.LittleEndian.Uint64(data[pos : pos+8])
